@@ -12,6 +12,9 @@ META = {
 def run(run, model):
     run.do(inv.selection, model)
     run.do(inv.install, model)
+    run.do(inv.marker_agreement, model)
+    from . import c17
+    run.do(c17.invariant_decorator_table, model, "C03.decorator-lists")
     run.do(inv.phases, model)
     run.do(inv.ctor, model)
     run.do(inv.self_rule, model)
